@@ -346,6 +346,23 @@ class World:
                 break
         return found
 
+    def check_fresh_frames(self, si, n=2):
+        """'Its verdict on *any* data is the same': frames generated only now (own PRNG stream derived from the history),
+        judged by the used subject and by a never-used twin."""
+        s = self.pool[si]
+        rng = kernel.derive(kernel.digest_of([self.hist["subjects"], len(self.hist["ops"])]), "fresh-frames", si)
+        gg = world.SpecGen(rng)
+        frames = [gg.frame_for(s.spec, conform=rng.choice([0.0, 0.5, 1.0])) for _ in range(n)]
+        twin = build_from_recipe(s.recipe)
+        a = verdicts(twin, s.spec, frames)
+        b = verdicts(s.obj, s.spec, frames)
+        self.bump("fresh_frame_validations", len(b))
+        for k, (x, y) in enumerate(zip(a, b)):
+            if x != y:
+                return [(f"verdict|{s.label.split('>')[0]}|op=end-of-history",
+                         f"subject {si} ({s.label}) verdict on a fresh frame (lazy={bool(k % 2)}) is {_shape(y)}, a never-used twin gives {_shape(x)}")]
+        return []
+
     # ---- running ------------------------------------------------------------------------------------
     def run(self, stop_at_first=True):
         for i, op in enumerate(self.hist["ops"]):
@@ -371,9 +388,11 @@ class World:
                 self.violations.append((klass, detail, i))
             if found and stop_at_first:
                 return
-        # end of history: every subject's verdicts
+        # end of history: every subject's verdicts, on its probe frames and on fresh frames it has never seen
         for si in range(len(self.pool)):
             found = self.check_verdicts(si, len(self.hist["ops"]), "end-of-history")
+            if not found:
+                found = self.check_fresh_frames(si)
             found += self.check_all(len(self.hist["ops"]), "validate", si)
             for klass, detail in found:
                 self.violations.append((klass, detail, len(self.hist["ops"])))
